@@ -39,7 +39,7 @@ import (
 	"verifh/hx"
 )
 
-func main() { hx.Main(map[string]func(*hx.Ctx){"mb": runMB, "mbbox": runBox, "mbconc": runConc, "mbgate": runGate}) }
+func main() { hx.Main(map[string]func(*hx.Ctx){"mb": runMB, "mbbox": runBox, "mbconc": runConc, "mbgate": runGate, "mbdeq": runDeqDying}) }
 
 var filterU = []string{"a", "b", "a/b", "a/+", "a/#", "#", "+", "+/b", "/a", "a/"}
 var nameU = []string{"a", "b", "a/b", "/a", "a/", "a/b/c", "b/b"}
